@@ -309,3 +309,16 @@ PROPS["C17"] = dict(
     rule="non-trivial = at least one foreign connection, a connector fault or in-band junk; distinct by SHA-1 of the case JSON",
     tests=[dict(name="TestVF_C17", env=dict(VERIF_CASE_LIMIT=300), quick=dict(checks=192, shards=32, timeout=900), thorough=dict(checks=4000, shards=32, timeout=10000))],
 )
+
+PROPS["C19"] = dict(
+    level="exploration", engine="E3 session with fake rz/sz helpers", bins=True, fakezm=True,
+    technique="property-based testing (rapid): generated helper behaviours, scripted server behaviours and Ctrl-C times around a real zmodem session of the exported filter; bounded-time hand-back oracle",
+    level_text="Random search over helper behaviours (talks, never produces output, exits at once with 0 / non-zero, produces output 600 ms late, missing from PATH), server behaviours (finishes, cancels before / after the "
+               "helper starts, keeps sending for 1.25 s, goes quiet; reacts to the cancel sequence with a prompt or stays quiet), Ctrl-C at 0-1200 ms, upload and download, and headers accompanied by a cancel run or a 'cannot open' "
+               "message. Oracle: a header with such company starts no helper and passes through; a lone header starts the helper; after the end event the waiting server receives the cancel sequence; 1.5 s after the end event and the "
+               "server's last output (0.5 s quiet + 1 s slack) a probe from the server reaches the terminal and typed input reaches the server.",
+    level_note="Bounded-time form of the liveness claim; 'always' is not established. Timing verdicts are re-run twice and reported only if they reproduce both times. The helpers are small fakes built from /verif/tools/fakezm; "
+               "the start header arrives within one read, as the detector works per read.",
+    rule="non-trivial = a session with an end event, or a header with a veto; distinct by SHA-1 of the case JSON",
+    tests=[dict(name="TestVF_C19", env=dict(VERIF_CASE_LIMIT=300), quick=dict(checks=192, shards=32, timeout=900, shrink="60s"), thorough=dict(checks=3000, shards=32, timeout=10000, shrink="120s"))],
+)
